@@ -121,7 +121,20 @@ class Folder:
             expr = self.mod.global_assign(name)
         except AnalysisError as exc:
             raise FoldError(str(exc)) from None
-        return self.fold(expr, {})
+        val = self.fold(expr, {})
+        # top-level `del NAME[key]` after the definition belongs to the definition (import runs it once, before anything reads the table
+        # from a function); other top-level mutations of a folded dict are not modelled
+        if isinstance(val, dict):
+            for st in self.mod.tree.body:
+                if isinstance(st, ast.Delete):
+                    for t in st.targets:
+                        if isinstance(t, ast.Subscript) and isinstance(t.value, ast.Name) and t.value.id == name:
+                            val = dict(val)
+                            key = self.fold(t.slice, {})
+                            if key not in val:
+                                raise FoldError(f'{self.mod.relpath}:{st.lineno}: del {name}[{key!r}]: key not in the folded table')
+                            del val[key]
+        return val
 
     def enum_table(self, clsname: str) -> EnumTable:
         c = self.mod.cls(clsname)
